@@ -6,6 +6,7 @@ import (
 	"compress/gzip"
 	"fmt"
 	"os/exec"
+	"strings"
 	"sync"
 
 	"github.com/kjk/lzma"
@@ -236,6 +237,30 @@ func genCtlFiles(t *rapid.T, controlText string) []TarFile {
 
 func genDebModel(t *rapid.T) DebModel {
 	text, exp, _, src := genDebControlModel(t)
+	if rapid.IntRange(0, 11).Draw(t, "bigcontrol") == 0 {
+		// a control file larger than the usual I/O windows (4 KiB bufio, 32 KiB flate window, 64 KiB):
+		// real packages with huge Provides lists reach this
+		target := rapid.SampledFrom([]int{5000, 20000, 33000, 40000, 70000, 140000}).Draw(t, "bigsize")
+		if rapid.Bool().Draw(t, "bigshape") {
+			items := []string{}
+			for n := 0; n < target; n += 22 {
+				items = append(items, fmt.Sprintf("librust-crate%05d-dev", n/22))
+			}
+			val := strings.Join(items, ", ")
+			text += "X-Provides-Like: " + val + "\n"
+			exp.Unknown["X-Provides-Like"] = val
+		} else {
+			lines := []string{}
+			for n := 0; n < target; n += 40 {
+				lines = append(lines, fmt.Sprintf("line %06d of a very long description.....", n/40))
+			}
+			text += "X-Long-Text: first\n " + strings.Join(lines, "\n ") + "\n"
+			exp.Unknown["X-Long-Text"] = "first\n" + strings.Join(lines, "\n") + "\n"
+		}
+		// ... and a field after it, so that a truncated read is noticed
+		text += "X-After-The-Big-One: still here\n"
+		exp.Unknown["X-After-The-Big-One"] = "still here"
+	}
 	m := DebModel{ControlText: text, Exp: exp, SourceName: src, DebianBinary: "2.0\n"}
 	m.CtlFiles = genCtlFiles(t, text)
 	m.DataFiles = genDataFiles(t)
